@@ -1,6 +1,6 @@
 """Algebraic identities of C03 (rules A1..A5, W1) on the formulas extracted by C03.run."""
 import sympy as sp
-from .. import sym, esign
+from .. import sym, esign, alg
 from ..tree import sx, walk, pp, strip_casts as strip_casts_
 from .C20 import deep_unwrap
 
@@ -170,6 +170,7 @@ def run(fx, R, d):
     oky, ry_ = zero(Ym - (ys_ - c_ * sp.exp(-n_ * L)))
     chk(R, oky, ry_, 'A3', 'toLambert:origin-ordinate', 'on the central meridian y = %s; with ys = y0 + c exp(-n L0) the origin then maps to y0 + (%s), non-zero when c < 0 (southern cones)' % (Ym, ry_),
             'y(lat, lon0) = ys - c exp(-n L(lat))', loc_f, 'E-ALG')
+    d['XY'] = (X, Y, L)
     check_wiring(fx, R, d)
     check_inverse(fx, R, d, X, Y, L, Ldef, D)
 
@@ -246,7 +247,32 @@ def check_wiring(fx, R, d=None):
                 elif others:
                     bad = bad or ('field %s receives the value meant for %s (%s)' % (k, others[0], g))
                 else:
-                    unknown = unknown or 'field %s receives %s, expected %s' % (k, str(g)[:80], str(w)[:80])
+                    # a field that receives another function of its parameter: does the forward map change?  (witness-confirmed on the
+                    # parameter domain of the quantifier, both signs of the central meridian included)
+                    verdict = None
+                    if d is not None and d.get('XY') is not None and isinstance(g, sp.Basic) and isinstance(w, sp.Basic):
+                        X_, Y_, _ = d['XY']
+                        fs_ = S('this.' + k)
+                        def dom_(s_):
+                            n_ = s_.name
+                            if 'longitude' in n_:
+                                return (-300, 300)
+                            if 'latitude' in n_:
+                                return (30, 120)
+                            if n_.endswith('n_') or n_ in ('this.n_',):
+                                return (30, 95)
+                            if n_.endswith('c_'):
+                                return (10 ** 8, 12 * 10 ** 8)
+                            if 'isolat' in n_:
+                                return (40, 130)
+                            return None
+                        resid = sp.Matrix([X_.subs(fs_, g) - X_.subs(fs_, w), Y_.subs(fs_, g) - Y_.subs(fs_, w)])
+                        verdict = alg.decide_zero_on_path(resid, [(c_[1], c_[2]) for c_ in st.cond], tries=40, domain=dom_)
+                    if verdict is not None and verdict[0] == 'nonzero':
+                        bad = bad or ('field %s receives `%s` instead of its parameter %s, and the forward map changes with it (a projected coordinate moves by %s at %s): the origin no longer maps to (x0, y0) '
+                                      'and the central meridian no longer maps onto x = x0 for those parameters' % (k, str(g)[:80], w, verdict[2], alg.witness_text(verdict[1])[:140]))
+                    else:
+                        unknown = unknown or 'field %s receives %s, expected %s' % (k, str(g)[:80], str(w)[:80])
         if bad:
             R.violated('W1', inst, bad, fx.rel(f['loc']), 'E-STATE')
         elif unknown:
